@@ -11,7 +11,9 @@
 (* Events (records, uniform fields [k, f, rq, rs, at]):                    *)
 (*   enter f   filter f was invoked; rq/rs = identity of the pair received,*)
 (*             at = attributes visible                                     *)
-(*   pass f    filter f calls ProcessFilter handing on pair rq/rs          *)
+(*   pass f    filter f calls ProcessFilter handing on pair rq/rs; who = the*)
+(*             value it stored in the attribute every filter overwrites    *)
+(*             (0: it stored none); enter / target report the value seen   *)
 (*   ret f     that call returned normally                                 *)
 (*   exit f    filter f returned normally                                  *)
 (*   target    route function / service-error writer / plain handler ran   *)
@@ -28,7 +30,7 @@ EXTENDS Strings, SequencesExt
 MonInit(n, recoverOn, rq0, rs0) ==
   [ok |-> TRUE, why |-> "", n |-> n, rec |-> recoverOn, next |-> 1, stack |-> <<>>, passing |-> {},
    passed |-> {}, target |-> FALSE, panicked |-> FALSE, recovered |-> 0, held |-> {}, released |-> {},
-   acquired |-> 0, rq |-> rq0, rs |-> rs0, attrs |-> {}, done |-> FALSE]
+   acquired |-> 0, rq |-> rq0, rs |-> rs0, attrs |-> {}, who |-> 0, done |-> FALSE]
 
 Bad(m, why) == [m EXCEPT !.ok = FALSE, !.why = IF m.why = "" THEN why ELSE m.why]
 Top(s) == s[Len(s)]
@@ -46,12 +48,14 @@ Step(m, e) ==
          ELSE IF m.target THEN Bad(m, "C06.order")
          ELSE IF e.rq # m.rq \/ e.rs # m.rs THEN Bad(m, "C06.pair")
          ELSE IF ~(m.attrs \subseteq e.at) THEN Bad(m, "C06.attrs")
+         \* the attribute every passing filter overwrites ("who") holds the last value passed on
+         ELSE IF e.who # m.who THEN Bad(m, "C06.attrs")
          ELSE [m EXCEPT !.next = @ + 1, !.stack = Append(@, e.f)]
     [] e.k = "pass" ->
          IF m.panicked THEN Bad(m, "C10.afterpanic")
          ELSE IF m.stack = <<>> \/ Top(m.stack) # e.f \/ e.f \in m.passed THEN Bad(m, "C06.harness")
          ELSE [m EXCEPT !.passing = @ \cup {e.f}, !.passed = @ \cup {e.f}, !.rq = e.rq, !.rs = e.rs,
-                        !.attrs = @ \cup {e.f}]
+                        !.attrs = @ \cup {e.f}, !.who = IF e.who # 0 THEN e.who ELSE @]
     [] e.k = "target" ->
          IF m.panicked THEN Bad(m, "C10.afterpanic")
          ELSE IF m.target THEN Bad(m, "C06.targetonce")
@@ -60,6 +64,7 @@ Step(m, e) ==
          \* (a plain http.Handler target cannot see the pair: logged as 0)
          ELSE IF e.rq # 0 /\ (e.rq # m.rq \/ e.rs # m.rs) THEN Bad(m, "C06.pair")
          ELSE IF e.rq # 0 /\ ~(m.attrs \subseteq e.at) THEN Bad(m, "C06.attrs")
+         ELSE IF e.rq # 0 /\ e.who # m.who THEN Bad(m, "C06.attrs")
          ELSE [m EXCEPT !.target = TRUE]
     [] e.k = "ret" ->
          IF e.f \notin m.passing \/ m.stack = <<>> \/ Top(m.stack) # e.f THEN Bad(m, "C06.nesting")
@@ -100,7 +105,8 @@ Step(m, e) ==
 RECURSIVE RunMon(_, _, _)
 RunMon(m, evs, i) == IF i > Len(evs) THEN m ELSE RunMon(Step(m, evs[i]), evs, i + 1)
 
-Ev(k, f, rq, rs, at) == [k |-> k, f |-> f, rq |-> rq, rs |-> rs, at |-> at]
+Ev(k, f, rq, rs, at) == [k |-> k, f |-> f, rq |-> rq, rs |-> rs, at |-> at, who |-> 0]
+EvW(k, f, rq, rs, at, who) == [k |-> k, f |-> f, rq |-> rq, rs |-> rs, at |-> at, who |-> who]
 
 \* ---------- C07: the coding decision (pure) ----------
 \* obs: [entry, cEnc, rEnc ("unset"|"on"|"off"), routed, ae (Accept-Encoding), preCE, ce (response
